@@ -544,7 +544,7 @@ pub fn main(args: &[String]) -> i32 {
     }
     let _ = std::fs::create_dir_all(&out);
     std::panic::set_hook(Box::new(|_| {}));
-    let (count, budget) = if tier == "thorough" { (14, 600_000) } else { (5, 170_000) };
+    let (count, budget) = if tier == "thorough" { (14, 600_000) } else { (5, 120_000) };
     let sessions: Vec<Value> = match &replay {
         Some(f) => {
             let v: Value = std::fs::read_to_string(f).ok().and_then(|s| serde_json::from_str(&s).ok()).unwrap_or(Value::Null);
